@@ -120,7 +120,7 @@ def gen_component(rnd, depth=0):
     name = rnd.choice(["VEVENT", "VTODO", "VJOURNAL", "X-BOX", "VALARM", "X-" + rnd.choice(["A", "B"])])
     lines = [rnd.choice(["BEGIN", "begin", "Begin"]) + ":" + (name if rnd.random() < 0.7 else name.lower())]
     exp_props = []
-    for _ in range(rnd.randint(1, 5)):
+    for _ in range(rnd.choice([0, 1, 1, 2, 3, 4, 5]) if depth > 0 else rnd.randint(1, 5)):          # (a nested component may be EMPTY)
         kind = rnd.choice(["text", "text", "int", "dt", "dtz", "date", "dur", "uri", "xtext", "binary"])
         params = []
         if rnd.random() < 0.4:
